@@ -44,6 +44,10 @@ type piece struct {
 type pamCase struct {
 	// SockLen > 0 (server "none" only): the sock= option names a non-existent path of exactly this many bytes
 	SockLen int `json:"sock_len,omitempty"`
+	// Errno: the value of errno when the host application calls the module (left over from an unrelated earlier call)
+	Errno int `json:"errno,omitempty"`
+	// SignalMS > 0: the host process receives a (handled, non-restarting) signal every that many milliseconds
+	SignalMS int `json:"signal_ms,omitempty"`
 	// SendMax > 0: every send() of the module transfers at most that many bytes (short writes)
 	SendMax int `json:"send_max,omitempty"`
 	User    *string  `json:"user"`
@@ -106,6 +110,8 @@ func genPamCase(t *rapid.T) pamCase {
 		"timeout=1 timeout=-1", "timeout=1 timeout=0", "timeout=1 timeout=abc", "timeout=1 timeout=4294967295", "timeout=1 timeout=2147483648",
 		"timeout=1 timeout=99999999999999999999", "timeout=-1 timeout=1", "timeout=1 timeout=-0"}).Draw(t, "timeoutopt"))
 	c.SendMax = rapid.SampledFrom([]int{0, 0, 0, 0, 1, 2, 3, 7, 100}).Draw(t, "sendmax")
+	c.SignalMS = rapid.SampledFrom([]int{0, 0, 0, 0, 0, 150, 300, 700}).Draw(t, "signalms")
+	c.Errno = rapid.SampledFrom([]int{0, 0, 0, 4 /*EINTR*/, 4, 11 /*EAGAIN*/, 32 /*EPIPE*/, 110 /*ETIMEDOUT*/, 2}).Draw(t, "errno")
 	if rapid.IntRange(0, 7).Draw(t, "silent") == 0 {
 		c.Flags = 0x8000
 	}
@@ -120,7 +126,13 @@ func genPamCase(t *rapid.T) pamCase {
 	c.ReadK = rapid.IntRange(0, 20).Draw(t, "readk")
 	c.End = rapid.SampledFrom([]string{"close", "close", "keep"}).Draw(t, "end")
 	// reply bytes
-	text := rapid.SampledFrom([]string{"OK", "OK", "OK success", "NO", "NO wrong credentials", "O", "OKAY", "ok", "", "KO", "NOK", " OK", "OK\x00", "O\x00K"}).Draw(t, "text")
+	text := rapid.SampledFrom([]string{"OK", "OK", "OK success", "NO", "NO wrong credentials", "O", "OKAY", "ok", "", "KO", "NOK", " OK", "OK\x00", "O\x00K",
+		// negative replies whose later part reads "OK": whatever way the reply is cut into reads, it begins with NO
+		"NOOK", "NOOK", "NO OK", "NOOK success", "NO bad OK", "KOOK", "NONOOKOK"}).Draw(t, "text")
+	if strings.HasPrefix(text, "NO") && strings.Contains(text, "OK") || text == "KOOK" {
+		// delivered in two-byte pieces with pauses (below the timeout) so that the module needs several reads
+		vlib.Class("negative-reply-with-OK-in-a-later-fragment")
+	}
 	c.Reply = "text:" + text
 	if rapid.IntRange(0, 5).Draw(t, "longtext") == 0 {
 		n := rapid.SampledFrom([]int{254, 255, 256, 257, 300, 1000}).Draw(t, "n")
@@ -148,12 +160,19 @@ func genPamCase(t *rapid.T) pamCase {
 	}
 	// fragmentation with delays: 0, 0.3 x timeout, 1.6 x timeout (the latter at most once)
 	slow := false
+	forceSplit := len(raw) <= 40 && strings.Contains(c.Reply, "OK") && !strings.HasPrefix(c.Reply, "text:OK") && rapid.Bool().Draw(t, "forcesplit")
 	for len(raw) > 0 {
 		n := rapid.SampledFrom([]int{1, 1, 2, 3, 64, 100000}).Draw(t, "plen")
+		if forceSplit {
+			n = 2 // [length][NO][OK]...: every piece arrives in a read of its own
+		}
 		if n > len(raw) {
 			n = len(raw)
 		}
 		d := rapid.SampledFrom([]int{0, 0, 0, 0, 300, 1600}).Draw(t, "delay")
+		if forceSplit {
+			d = 60
+		}
 		if d == 1600 {
 			if slow || rapid.IntRange(0, 2).Draw(t, "allowslow") != 0 {
 				d = 0
@@ -287,11 +306,18 @@ func runPam(c pamCase) (runResult, error) {
 	ctx, cancel := context.WithTimeout(context.Background(), 40*time.Second)
 	defer cancel()
 	cmd := exec.CommandContext(ctx, pamdrv(), casefile)
+	cmd.WaitDelay = 10 * time.Second // never wait for ever on the output pipes of a killed child
 	var so, se bytes.Buffer
 	cmd.Stdout, cmd.Stderr = &so, &se
 	cmd.Env = append(os.Environ(), "ASAN_OPTIONS=exitcode=99:detect_leaks=1:abort_on_error=0", "UBSAN_OPTIONS=halt_on_error=1:exitcode=98:print_stacktrace=1")
 	if c.SendMax > 0 {
 		cmd.Env = append(cmd.Env, fmt.Sprintf("PAMDRV_SEND_MAX=%d", c.SendMax))
+	}
+	if c.SignalMS > 0 {
+		cmd.Env = append(cmd.Env, fmt.Sprintf("PAMDRV_SIGNAL_MS=%d", c.SignalMS))
+	}
+	if c.Errno > 0 {
+		cmd.Env = append(cmd.Env, fmt.Sprintf("PAMDRV_ERRNO=%d", c.Errno))
 	}
 	var gateR, gateW *os.File
 	var childEnds []*os.File
@@ -420,6 +446,14 @@ func judgePam(c pamCase, rr runResult) string {
 		// fail (EPIPE -> non-success, legitimately) or it gets to read the OK is a race the property does not constrain
 		vlib.Class("early-close-while-module-still-writes(either verdict)")
 		want = false
+	}
+	if c.SignalMS > 0 {
+		// with signals interrupting its system calls the module may give up early (a non-success code): only "success => OK"
+		// and the time bound are required
+		vlib.Class("host-process-receives-signals-while-the-module-runs")
+		if rr.rc != pamSuccess {
+			want = false
+		}
 	}
 	if (rr.rc == pamSuccess) != want {
 		return fmt.Sprintf("pam_sm_authenticate returned %d, but the reply as the module could read it %s begin with OK", rr.rc, map[bool]string{true: "does", false: "does not"}[want])
